@@ -39,6 +39,7 @@ CONST_MODULI = [
     (8, (1 << 510) - 1),
     (16, (1 << 1023) + 1),
     (1, ((1 << 32) - 5) ** 2), (2, 3 ** 80),            # non-squarefree (nilpotent bases exist)
+    (2, 0xffffffffffffffff0000000000000005), (4, 0xffffffffffffffffffffffffffffffffffffffffffffffff0000000000000003),   # low limb with leading zeros
 ]
 
 
